@@ -310,6 +310,7 @@ func TestC18(t *testing.T) {
 		"the spec derivation from the XML; enum constants; dialect version; second generation byte-identical; negative definitions must not initialize; the same for trees fetched by URL from a loopback web server (nested relative includes in sub-directories). " +
 		"programs = top-level dialects generated; disagreements_checked = individual comparisons; distinct = (dialect, message)")
 	rep.RuleAdd("Rounds 12-15: definitions fetched by URL with nested relative includes, link mode, initialisms, 63/64-field messages, lower-case entry names, merged bitmask fixtures.")
+	rep.RuleAdd("Rounds 16-17: version 0 over a versioned include; message names with an underscore before a digit.")
 	rep.Assume("reference derivation harness/ref.LayoutFromXML (independent of pkg/conversion and of pkg/message)")
 	rep.Assume("link mode is exercised with one fixture whose generated package refers to nothing outside itself (the merged enum moves into it); remote (URL) definitions are fetched from a web server on the loopback interface")
 	seed := vh.Seed()
